@@ -872,6 +872,22 @@ func (e *SpecEnv) call(x *SExpr) *Val {
 			case "runeLen": // runeLen(s): number of code points of a string (= len([]rune(s)))
 				v := e.eval(args[0])
 				return intVal(UF("len_int32s_of_str", SInt, v.L[0]))
+			case "addrOfElem": // addrOfElem(s, i): the pointer &s[i]
+				v := e.eval(args[0])
+				i := e.evalInt(args[1])
+				sl, ok := types.Unalias(e.te.apply(v.T)).Underlying().(*types.Slice)
+				if !ok || len(v.L) != 4 {
+					e.fail(x, "addrOfElem() of a non-slice")
+				}
+				a := &Addr{Kind: AElem, Ref: v.L[0], Idx: Add(v.L[1], i), Base: "[]" + typeName(e.te.apply(sl.Elem())), T: sl.Elem()}
+				return ptrVal(types.NewPointer(sl.Elem()), a)
+			case "elemIndex": // elemIndex(p): absolute index of the slice element p points to
+				v := e.eval(args[0])
+				t := v.L[0]
+				if t.Kind == KApp && strings.HasPrefix(t.Op, "elemptr!") {
+					return intVal(t.Args[1])
+				}
+				return intVal(UF("elemidx", SInt, t))
 			case "tagged": // tagged(f, name): f is a closure whose contract carries "tag name"
 				if len(args) != 2 || args[1].Kind != "ident" {
 					e.fail(x, "tagged(value, tagname)")
